@@ -56,6 +56,10 @@ func runC25(r *simkit.Run) {
 	sl := &backend.Slice{Cfg: models.Slice{Name: "slice-0"}, Namespace: "ns", ProxyDatacenter: "c3"}
 	sl.Slave = &backend.DBInfo{}
 	lastPick := map[string]*c25node{}
+	// half of the runs build the replica list the way a namespace configuration does (address@weight#datacenter,
+	// the weight may be left out: it is 1 then) and then put the fake pools in place of the real ones
+	viaConfig := tp.Chance(1, 2)
+	var addrs []string
 	for i := 0; i < n; i++ {
 		w := []int{0, 1, 1, 2, 3, 4, 6, 8, tp.Range(0, 8)}[tp.Choose(9)]
 		local := tp.Chance(1, 2)
@@ -71,12 +75,33 @@ func runC25(r *simkit.Run) {
 		p.onGet = func(p *fakePool, err error) { lastPick[r.CurrentTask()] = cn }
 		nodes = append(nodes, cn)
 		sl.Slave.Nodes = append(sl.Slave.Nodes, ref.node)
+		a := fmt.Sprintf("%s:3306@%d#%s", sc.name, w, dc)
+		if w == 1 && tp.Chance(1, 2) {
+			a = fmt.Sprintf("%s:3306#%s", sc.name, dc) // no weight given
+		}
+		addrs = append(addrs, a)
 	}
-	if err := sl.Slave.InitBalancers("c3"); err != nil {
+	if viaConfig {
+		sl.Cfg.Capacity, sl.Cfg.MaxCapacity, sl.Cfg.IdleTimeout = 1, 1, 3600
+		if err := sl.ParseSlave(addrs); err != nil {
+			r.Failf("harness", "ParseSlave(%v): %v", addrs, err)
+			return
+		}
+		if len(sl.Slave.Nodes) != n {
+			r.Failf("harness", "ParseSlave(%v) built %d nodes", addrs, len(sl.Slave.Nodes))
+			return
+		}
+		for i, node := range sl.Slave.Nodes {
+			node.ConnPool.Close()
+			node.ConnPool = nodes[i].ref.pool
+			nodes[i].ref.node = node
+		}
+		r.Probe("replica-list-parsed-from-configuration")
+	} else if err := sl.Slave.InitBalancers("c3"); err != nil {
 		r.Failf("harness", "InitBalancers: %v", err)
 		return
 	}
-	cfg := fmt.Sprintf("policy=%d nearWrap=%v racy=%v nodes=", policy, nearWrap, racy)
+	cfg := fmt.Sprintf("policy=%d nearWrap=%v racy=%v viaConfig=%v nodes=", policy, nearWrap, racy, viaConfig)
 	for _, c := range nodes {
 		cfg += fmt.Sprintf("[w%d local=%v]", c.weight, c.local)
 	}
